@@ -399,7 +399,12 @@ def run_driver(script: str, jobs: list, *, timeout: int = 600,
         jp = d / f'jobs{k}.json'
         jp.write_text(json.dumps([jobs[i] for i in idxs], ensure_ascii=False))
         rp = d / f'res{k}.ndjson'
-        p = subprocess.Popen([PY, str(VERIF / 'harness' / script), str(jp), str(rp)],
+        cmd = [PY, str(VERIF / 'harness' / script), str(jp), str(rp)]
+        covdir = os.environ.get('WN_VERIF_COV')
+        if covdir:      # development aid: which lines of wn the drivers reach (coverage.py of /venv)
+            cmd = [PY, '-m', 'coverage', 'run', f'--data-file={covdir}/.cov.{os.getpid()}.{script}.{k}.{time.time_ns()}',
+                   f'--source={REPO}/wn'] + cmd[1:]
+        p = subprocess.Popen(cmd,
                              env=e, cwd=str(d), stdout=subprocess.PIPE,
                              stderr=subprocess.STDOUT)
         ps.append((p, idxs, rp))
